@@ -159,6 +159,18 @@ type DeepInner struct {
 	DJ *int
 }
 
+// audit is an unexported struct type with exported fields: embedding it promotes them.
+type audit struct {
+	By string
+	At int64
+}
+
+type WithAudit struct {
+	ID int
+	audit
+	Note string
+}
+
 type Node struct {
 	V    int
 	Next *Node
@@ -234,7 +246,7 @@ type Empty struct{}
 var StructTypes = []reflect.Type{
 	reflect.TypeOf(One{}), reflect.TypeOf(OnePtr{}), reflect.TypeOf(OneMap{}), reflect.TypeOf(OneStr{}),
 	reflect.TypeOf(Scalars{}), reflect.TypeOf(Ptrs{}), reflect.TypeOf(Libs{}), reflect.TypeOf(Slices{}),
-	reflect.TypeOf(Maps{}), reflect.TypeOf(Tagged{}), reflect.TypeOf(Embeds{}), reflect.TypeOf(EmbedsLate{}), reflect.TypeOf(Node{}),
+	reflect.TypeOf(Maps{}), reflect.TypeOf(Tagged{}), reflect.TypeOf(Embeds{}), reflect.TypeOf(EmbedsLate{}), reflect.TypeOf(WithAudit{}), reflect.TypeOf(Node{}),
 	reflect.TypeOf(Tree{}), reflect.TypeOf(MutA{}), reflect.TypeOf(MutB{}), reflect.TypeOf(Nested{}),
 	reflect.TypeOf(Unreg{}), reflect.TypeOf(Empty{}), reflect.TypeOf(G{}), reflect.TypeOf(H{}),
 }
